@@ -148,8 +148,16 @@ theorem key_writeControl (s : W) (t : Int) (data : Bytes) (d : Int) : key (write
       · exact key_ctlKey s
       · exact (key_connWrite _ _ _ _ _).trans (key_ctlKey s)
 
-theorem key_writePreparedImage (s : W) (t : Int) (img : Bytes) : key (writePreparedImage s t img).2 = key s := by
+/-- `writePreparedImage` = (for a data type) `closePrev`, then one `Conn.write`; the `Conn.write` does not
+    touch the pool bookkeeping.  (Before the repair of F8 the right-hand side was `key s` for every type;
+    for control types it still is, see `key_writePreparedImage_ctl`.) -/
+theorem key_writePreparedImage (s : W) (t : Int) (img : Bytes) (dnp : List Bytes) (fullp : Bytes) :
+    key (writePreparedImage s t img dnp fullp).2 = key (if isData t = true then closePrev s dnp fullp else s) := by
   unfold writePreparedImage; exact key_connWrite _ _ _ _ _
+
+theorem key_writePreparedImage_ctl (s : W) (t : Int) (img : Bytes) (dnp : List Bytes) (fullp : Bytes)
+    (ht : isData t = false) : key (writePreparedImage s t img dnp fullp).2 = key s := by
+  rw [key_writePreparedImage, ht]; rfl
 
 /-- balance while a message writer is live -/
 structure BalT (s : W) : Prop where
@@ -576,6 +584,13 @@ theorem closePrev_inv (s : W) (dnp : List Bytes) (fullp : Bytes) (a : SInv s) :
     obtain ⟨h2, hw2, _⟩ := a.hB j mj hj ej
     rw [hw] at hw2; cases hw2
 
+theorem writePreparedImage_inv (s : W) (t : Int) (img : Bytes) (dnp : List Bytes) (fullp : Bytes) (a : SInv s) :
+    SInv (writePreparedImage s t img dnp fullp).2 := by
+  refine SInv.congr (key_writePreparedImage s t img dnp fullp) ?_
+  split
+  · exact (closePrev_inv s dnp fullp a).1
+  · exact a
+
 /-- state after a successful beginMessage: nothing stored is live, but a buffer is held for the
     message writer about to be created -/
 structure Begun (s : W) : Prop where
@@ -714,7 +729,7 @@ theorem applyOp_inv (s : W) (op : Op) (a : SInv s) : SInv (applyOp s op).2 := by
   | writeMessage t data dnp fullp dn full => exact writeMessage_inv s t data dnp fullp dn full a
   | writeJSON enc dnp fullp dn full => exact writeJSON_inv s enc dnp fullp dn full a
   | writeControl t data d => exact a.congr (key_writeControl s t data d)
-  | writePrepared t img => exact a.congr (key_writePreparedImage s t img)
+  | writePrepared t img dnp fullp => exact writePreparedImage_inv s t img dnp fullp a
   | setWriteDeadline d =>
     have hk : key (applyOp s (.setWriteDeadline d)).2 = key s := rfl
     exact a.congr hk
